@@ -87,7 +87,9 @@ def run_impl(case):
     from eudoxia.workload.pipeline import Segment, Pipeline
     from eudoxia.workload import OperatorState
     from eudoxia.utils import Priority
-    ex = Executor(1, 256, 4096, case["tps"], multi_operator_containers=True)
+    # the time and memory model of a container does not depend on the pool's overcommit switch: a third of the cases run with it on
+    over = (case["cpus"] + len(case["ops"])) % 3 == 0
+    ex = Executor(1, 256, 4096, case["tps"], multi_operator_containers=True, allow_memory_overcommit=over)
     p = Pipeline("p", Priority.BATCH_PIPELINE)
     ops = []
     par = case.get("parents") or [[k - 1] if k else [] for k in range(len(case["ops"]))]
